@@ -20,7 +20,11 @@ META = {
              "and the restart fault (all objects dropped, pool rebuilt from the .mim files).  A per-history random subset of "
              "operations is enabled (swarm).  After every operation every live region is compared, through a deep copy, "
              "with a reference model (set of deepest-level pixel ids).  A history is non-trivial with >= 2 operations; "
-             "distinct = new operation-sequence shape (numbers abstracted)."),
+             "distinct = new operation-sequence shape (numbers abstracted).  In addition every run executes the bounded-exhaustive "
+             "part as fixed cases: all 4096 three-letter words (depth 3) and all 256 two-letter words (depth 2) over a 16-operation alphabet (add circle / coarse circle / "
+             "add_pixels alone / add_pixels+renorm / union same, finer, coarser / without / intersect / symmetric_difference / "
+             "get_demoted / sky_within / get_area / save+load / restart / self-union) applied to a fixed three-region setup at "
+             "depth 2 and depth 3."),
     "assumptions": [
         "healpy's nested-index arithmetic and query_disc/query_polygon/ang2pix results are the trusted base (the geometric correctness of those calls is property C09, not this one)",
         "integer-valued float identifiers are not flagged (not observable through any API); fractional or out-of-range ones are",
@@ -40,7 +44,34 @@ def prepare():
     rm.setup()
 
 
+def fixed_cases():
+    """Bounded-exhaustive part: every word of length 3 (depth 3) and of length 2 (depth 2) over the 16-letter alphabet
+    of engines/region_machine.py, in blocks of all words with a given first letter."""
+    return [{"mode": 63, "enum_depth": d, "enum_block": b} for d in (0, 1) for b in range(len(rm.LETTERS))]
+
+
+def _enum_case(ch, out):
+    depth = 2 + ch.draw("enum_depth", 2)
+    first = rm.LETTERS[ch.draw("enum_block", len(rm.LETTERS))]
+    n = 0
+    for second in rm.LETTERS:
+        for third in (rm.LETTERS if depth == 3 else ("",)):      # depth 3: words of length 3; depth 2: of length 2
+            word = first + second + third
+            rm.run_scripted(out, word, depth=depth)
+            n += 1
+            if out.violations:
+                out.violations[0]["message"] = "enumerated history %r at depth %d: %s" % (word, depth, out.violations[0]["message"])
+                out.sample = {"enumerated_word": word, "depth": depth}
+                return out
+    out.stats["enumerated_histories"] += n
+    out.sample = {"enumerated_block": first + "**", "depth": depth, "words": n}
+    out.feed("enum %s %d" % (first, depth))
+    return out
+
+
 def case(ch):
     out = Outcome()
+    if ch.draw("mode", 64) == 63:
+        return _enum_case(ch, out)
     rm.run_history(ch, out, min_depth=2, max_depth=10, export_weight=0)
     return out
